@@ -6,6 +6,7 @@ import (
 	"database/sql"
 	"encoding/binary"
 	"fmt"
+	"math/rand"
 	"os"
 	"path/filepath"
 	"sort"
@@ -161,6 +162,41 @@ func (a *c06Acts) nonEmpty() bool {
 		}
 	}
 	return false
+}
+
+// revision numbers are stored as 8-byte little-endian BLOBs and compared bytewise by SQLite:
+// values around byte boundaries, where bytewise order and numeric order disagree
+var c06RevLadder = []uint64{1, 2, 3, 255, 256, 257, 258, 511, 512, 513, 65535, 65536, 65537, 1 << 24, 1<<32 - 1, 1 << 32, 1<<32 + 1, 1<<40 + 5, 1 << 56, 1<<63 + 1}
+
+// a later revision number: the successor or a step up the ladder
+func c06NextRev(rng *rand.Rand, cur uint64) uint64 {
+	if rng.Intn(3) == 0 || cur >= c06RevLadder[len(c06RevLadder)-1] {
+		return cur + 1 + uint64(rng.Intn(2))
+	}
+	var up []uint64
+	for _, v := range c06RevLadder {
+		if v > cur {
+			up = append(up, v)
+		}
+	}
+	if len(up) > 4 {
+		up = up[:4]
+	}
+	return up[rng.Intn(len(up))]
+}
+
+// an earlier revision number (0 = the formation's)
+func c06OlderRev(rng *rand.Rand, cur uint64) uint64 {
+	down := []uint64{0}
+	for _, v := range c06RevLadder {
+		if v < cur {
+			down = append(down, v)
+		}
+	}
+	if cur > 0 && rng.Intn(3) == 0 {
+		return cur - 1
+	}
+	return down[rng.Intn(len(down))]
 }
 
 var c06Kinds = [7]string{"rebroadcast", "revision", "proof", "v2-rebroadcast", "v2-revision", "v2-proof", "v2-expire"}
@@ -361,7 +397,7 @@ func TestVerifC06(t *testing.T) {
 			fcid := v1List[r.idx]
 			revise := func() {
 				rv := v1Revs[r.idx]
-				rv.RevisionNumber = r.rev + 1 + uint64(rng.Intn(2))
+				rv.RevisionNumber = c06NextRev(rng, r.rev)
 				if err := db.ReviseContract(contracts.SignedRevision{Revision: rv}, nil, contracts.Usage{}, nil); err != nil {
 					t.Fatal(err)
 				}
@@ -395,7 +431,7 @@ func TestVerifC06(t *testing.T) {
 				case k < 4:
 					confirmRev(r.rev)
 				case k < 5:
-					confirmRev(uint64(rng.Intn(int(r.rev%1000) + 1)))
+					confirmRev(c06OlderRev(rng, r.rev))
 				case k < 7:
 					chainOp("v1-successful", func(tx index.UpdateTx) error {
 						return tx.ApplyContracts(idxAt(h), contracts.StateChanges{Successful: []types.FileContractID{fcid}})
@@ -427,7 +463,7 @@ func TestVerifC06(t *testing.T) {
 			fcid := v2List[r.idx]
 			revise := func() {
 				fc := v2Revs[r.idx]
-				fc.RevisionNumber = r.rev + 1 + uint64(rng.Intn(2))
+				fc.RevisionNumber = c06NextRev(rng, r.rev)
 				if err := db.ReviseV2Contract(fcid, fc, nil, nil, proto4.Usage{}); err != nil {
 					t.Fatal(err)
 				}
@@ -445,7 +481,7 @@ func TestVerifC06(t *testing.T) {
 				case k < 3:
 					n := r.rev
 					if rng.Intn(3) == 0 && n > 0 {
-						n-- // formed at an older revision than the host's latest
+						n = c06OlderRev(rng, r.rev) // formed at an older revision than the host's latest
 					}
 					chainOp("v2-formed", func(tx index.UpdateTx) error {
 						return tx.ApplyContracts(idxAt(h), contracts.StateChanges{ConfirmedV2: []types.V2FileContractElement{{ID: fcid, StateElement: types.StateElement{LeafIndex: uint64(r.idx)}, V2FileContract: onChain(n)}}})
@@ -468,7 +504,7 @@ func TestVerifC06(t *testing.T) {
 					})
 				case k < 5:
 					chainOp("v2-revision-confirmed-older", func(tx index.UpdateTx) error {
-						return tx.ApplyContracts(idxAt(h), contracts.StateChanges{RevisedV2: []contracts.RevisedV2Contract{{ID: fcid, V2FileContract: onChain(uint64(rng.Intn(int(r.rev%1000) + 1)))}}})
+						return tx.ApplyContracts(idxAt(h), contracts.StateChanges{RevisedV2: []contracts.RevisedV2Contract{{ID: fcid, V2FileContract: onChain(c06OlderRev(rng, r.rev))}}})
 					})
 				case k < 7:
 					chainOp("v2-successful", func(tx index.UpdateTx) error {
@@ -532,6 +568,30 @@ func TestVerifC06(t *testing.T) {
 						{ID: v2List[c], StateElement: types.StateElement{LeafIndex: 1}, V2FileContract: types.V2FileContract{RevisionNumber: 1}},
 						{ID: v2List[d], StateElement: types.StateElement{LeafIndex: 2}, V2FileContract: types.V2FileContract{RevisionNumber: 2}}}})
 			})
+			// latest revision not on chain, with numbers whose little-endian bytes order the other
+			// way round than the numbers: (on chain, latest) = (2, 256), (255, 65536), (257, 2^32)
+			for k, pair := range [][2]uint64{{2, 256}, {255, 65536}, {257, 1 << 32}} {
+				e := addV1(1, 50, 53, pair[0], true)
+				g := addV2(1, 50, 53, pair[0])
+				chainOp("formed", func(tx index.UpdateTx) error {
+					return tx.ApplyContracts(idxAt(10), contracts.StateChanges{
+						Confirmed:   []types.FileContractElement{{ID: v1List[e]}},
+						Revised:     []contracts.RevisedContract{{ID: v1List[e], FileContract: types.FileContract{RevisionNumber: pair[0]}}},
+						ConfirmedV2: []types.V2FileContractElement{{ID: v2List[g], StateElement: types.StateElement{LeafIndex: uint64(3 + k)}, V2FileContract: types.V2FileContract{RevisionNumber: pair[0]}}}})
+				})
+				rv := v1Revs[e]
+				rv.RevisionNumber = pair[1]
+				if err := db.ReviseContract(contracts.SignedRevision{Revision: rv}, nil, contracts.Usage{}, nil); err != nil {
+					t.Fatal(err)
+				}
+				v1Revs[e] = rv
+				fc := v2Revs[g]
+				fc.RevisionNumber = pair[1]
+				if err := db.ReviseV2Contract(v2List[g], fc, nil, nil, proto4.Usage{}); err != nil {
+					t.Fatal(err)
+				}
+				v2Revs[g] = fc
+			}
 		case 2:
 			desc = "directed: resolved and proof-reverted contracts inside their windows"
 			a := addV1(1, 50, 53, 1, true)
@@ -566,11 +626,11 @@ func TestVerifC06(t *testing.T) {
 			}
 			for i := 0; i < nv1; i++ {
 				ws := uint64(40 + rng.Intn(12))
-				addV1(uint64(1+rng.Intn(30)), ws, ws+1+uint64(rng.Intn(4)), uint64(1+rng.Intn(3)), rng.Intn(4) != 0)
+				addV1(uint64(1+rng.Intn(30)), ws, ws+1+uint64(rng.Intn(4)), c06RevLadder[rng.Intn(7)], rng.Intn(4) != 0)
 			}
 			for i := 0; i < nv2; i++ {
 				ph := uint64(40 + rng.Intn(12))
-				addV2(uint64(1+rng.Intn(30)), ph, ph+1+uint64(rng.Intn(4)), uint64(1+rng.Intn(3)))
+				addV2(uint64(1+rng.Intn(30)), ph, ph+1+uint64(rng.Intn(4)), c06RevLadder[rng.Intn(7)])
 			}
 			if rng.Intn(20) == 0 { // a cleared (renewed) v1 contract carries the maximum revision number
 				i := rng.Intn(nv1)
